@@ -270,7 +270,7 @@ def gen_source(rng, size=4096, tight=False):
                 addr = rng.choice([0, 1, min(4095, size - 1), rng.randrange(min(4096, size))])
                 t = rng.choice([str(addr), "0x%x" % addr, "0x%03X" % addr, "0x%04x" % addr])
             words.append((MNEMONICS.index(m) << 12) | (addr % 4096))
-            lines.append(rng.choice(["", " ", "\t", "    "]) + pre + case_of(m) + " " + t + rng.choice(["", " # c", "   ", " # element #2", " ## x", " # a # b #"]))
+            lines.append(rng.choice(["", " ", "\t", "    "]) + pre + case_of(m) + " " + t + rng.choice(["", " # c", "   ", " # element #2", " ## x", " # a # b #", ' # "q"', " # it's"]))
         else:
             m = rng.choice(MNEMONICS[8:])
             words.append(MNEMONICS.index(m) << 12)
